@@ -132,6 +132,29 @@ def sys_replay(ctx):
         ctx.sample({"kind": "two-node replay", "case": c["case"], "steps": [(s["node"], s["obs"]["stim"]["kind"], s["obs"]["stim"]["msg"]["kind"]) for s in c["steps"]][:40], "finalA": c["finalA"]["status"], "finalB": c["finalB"]["status"]})
 
 
+def gsx_chantrace(ctx, tdir, prefixes):
+    import glob
+    lines = []
+    for f in sorted(glob.glob(os.path.join(tdir, "trace-*.ndjson"))):
+        lines += vlib.read_ndjson(f)
+    if not lines:
+        raise vlib.Inconclusive("the verif hook recorded nothing during the real two-node runs")
+    return stages.chan_trace(ctx, lines, prefixes, "gsx")
+
+
+def gsx_traces(ctx, prefixes, n):
+    """n real two-node scenarios run only to record hook lines, validated against Chan.tla (used by other properties' thorough tiers)"""
+    scns = gen(ctx, n)
+    cp = ctx.path("scn-tr.ndjson")
+    vlib.write_ndjson(cp, scns)
+    b = ctx.go_bin("gsx")
+    out = ctx.path("gsxobs-tr.ndjson")
+    tdir = ctx.path("gsx-traces-tr")
+    os.makedirs(tdir, exist_ok=True)
+    ctx.must_run_go(b, "TestScenarios", env={"VERIF_CASES": cp, "VERIF_OUT": out, "VERIF_TRACE": tdir}, timeout=3000)
+    return gsx_chantrace(ctx, tdir, prefixes)
+
+
 def run(ctx):
     sys_model(ctx)
     sys_replay(ctx)
@@ -147,7 +170,11 @@ def run(ctx):
     vlib.write_ndjson(cp, scns)
     b = ctx.go_bin("gsx")
     out = ctx.path("gsxobs.ndjson")
-    ctx.must_run_go(b, "TestScenarios", env={"VERIF_CASES": cp, "VERIF_OUT": out}, timeout=3000)
+    tdir = ctx.path("gsx-traces")
+    os.makedirs(tdir, exist_ok=True)
+    ctx.must_run_go(b, "TestScenarios", env={"VERIF_CASES": cp, "VERIF_OUT": out, "VERIF_TRACE": tdir}, timeout=3000)
+    # the same real runs as behaviours of Chan.tla (hook lines of both managers; trace specification ChanTrace.tla)
+    gsx_chantrace(ctx, tdir, ["C01."])
     nj, verdicts = stages.judge(ctx, out, module="C01Judge")
     idx = stages.index_obs(out)
     harness_errs = []
